@@ -31,7 +31,8 @@ pub const FILE_OTHER: [&str; 11] = ["test.py", "conftest.pyc", "Test_x.py", "tes
 pub const IMPORT_TARGETS: [&str; 8] = ["helper_1", "helper_2", "util", "pkg.helper_1", "sub.util", "tests.helper_2", "pkg", "types"];
 /// a prefix starting with `@link:` places the tree under the rest of the prefix and hands the scan a
 /// symlink to it (the client names the workspace through a non-canonical path)
-pub const PREFIXES: [&str; 8] = ["", "build/x", "env", "node_modules/n", "site-packages/p", "venv/lib", "@link:plain", "@link:build/x"];
+/// a prefix starting with `@root:` makes the workspace folder itself carry that name
+pub const PREFIXES: [&str; 10] = ["", "build/x", "env", "node_modules/n", "site-packages/p", "venv/lib", "@link:plain", "@link:build/x", "@root:build", "@root:x/node_modules"];
 
 #[derive(Clone, Debug, Serialize, Deserialize, PartialEq)]
 pub struct Imp {
@@ -351,7 +352,13 @@ impl Drop for Placed {
 pub fn materialise(t: &Tree, prefix: &str) -> std::io::Result<Placed> {
     let n = COUNTER.fetch_add(1, Ordering::SeqCst);
     let base = format!("/dev/shm/verif-{}-c13-{}", std::process::id(), n);
-    let root = if prefix.is_empty() { format!("{}/proj", base) } else { format!("{}/{}/proj", base, prefix) };
+    let root = if let Some(r) = prefix.strip_prefix("@root:") {
+        format!("{}/{}", base, r)
+    } else if prefix.is_empty() {
+        format!("{}/proj", base)
+    } else {
+        format!("{}/{}/proj", base, prefix)
+    };
     std::fs::create_dir_all(&root)?;
     for d in t.all_dirs() {
         if !d.is_empty() {
